@@ -1,6 +1,7 @@
 package main
 
 import (
+	"encoding/json"
 	"fmt"
 	"strings"
 	"time"
@@ -240,6 +241,58 @@ func runC13(c *Ctx) error {
 		c.Nontrivial(line)
 		if i%60 == 0 {
 			c.Sample(map[string]interface{}{"kind": kind, "line": line, "result": res})
+		}
+		// a proof as it arrives from a remote node (JSON): an empty slot of an honest path is given the key of a state that
+		// is not in the states tree, and that state is put into the proof; it must not be proved
+		if res == "ok" && kind == "valid" {
+			if b, err := json.Marshal(proof); err == nil {
+				var raw []json.RawMessage
+				if json.Unmarshal(b, &raw) == nil {
+					forgedState := w.sufState(int(st.st.Height()), st.sufH, st.st.Previous())
+					slots := 0
+					for slot, nd := range proof.Nodes() {
+						if nd != nil && !nd.IsEmpty() {
+							continue
+						}
+						slots++
+						fraw := append([]json.RawMessage{}, raw...)
+						fraw[slot] = json.RawMessage(fmt.Sprintf(`{"isempty":true,"key":%q}`, forgedState.st.Hash().String()))
+						fb, _ := json.Marshal(fraw)
+						var forged fixedtree.Proof
+						if json.Unmarshal(fb, &forged) != nil {
+							continue
+						}
+						fsp := isaacblock.NewSuffrageProof(c13map{m: manifest}, forgedState.st, forged)
+						fres := func() (out string) {
+							defer func() {
+								if r := recover(); r != nil {
+									out = "panic"
+								}
+							}()
+							if err := fsp.IsValid(nil); err != nil {
+								return "invalid"
+							}
+							var ps base.State
+							if prev != nil {
+								ps = prev.st
+							}
+							if err := fsp.Prove(ps); err != nil {
+								return "error"
+							}
+							return "ok"
+						}()
+						c.Eval(1)
+						c.Count("forged-empty-slot", fres)
+						if fres == "ok" {
+							c.Violation("C13:state-outside-the-tree-proved", fmt.Sprintf("%s: the proof JSON with its empty slot %d rewritten to carry the key of a state that is not in the states tree is accepted by IsValid and Prove for that state", line, slot),
+								map[string]interface{}{"line": line, "slot": slot, "proof_json": string(fb)})
+						}
+					}
+					if slots == 0 {
+						c.Count("forged-empty-slot", "path-without-empty-slot")
+					}
+				}
+			}
 		}
 		// oracle: an accepted proof leads to the block's states tree and its state follows the previous one
 		if res == "ok" {
